@@ -17,6 +17,9 @@ int* __errno_location(void) { static int e; return &e; }
 /* the page size is an environment parameter: a small one keeps the byte-level stack object within the solver's reach (the real 4096 gives a
  * 13M-variable formula); lemma_page_rounding covers the sizing arithmetic for the real page size */
 #define VPAGE 256
+#ifndef VSZ
+#define VSZ 1039
+#endif
 #define SBUF (6 * (VPAGE - 50) + 64)
 #else
 #define SBUF (1024 + 15 + 16)
@@ -55,13 +58,7 @@ static void spec_read(int site, void* addr) {}
 #include "verif_point.inc"
 static void* the_fn(void* p) { return p; }
 fiber_context_t CTX;
-void h_init(void) {
-  size_t sz = (size_t)verif_u64(); void* param = (void*)verif_u64();
-#ifdef FIBER_STACK_MMAP
-  vpage = VPAGE;
-#endif
-  VASSUME(sz >= 1024 && sz <= 1024 + 15);   /* every residue mod 16 at the documented minimum FIBER_MIN_STACK_SIZE (the frame sits at the TOP of the
-                                               stack, so larger sizes only move it: lemma_frame_arith covers all sizes and base addresses) */
+static void init_body(size_t sz, void* param) {
   mallocs = frees = mmaps = munmaps = mprotects = 0; free_bad = map_bad = guard_bad = 0; last_alloc = 0; last_size = 0;
   /* the context memory is the caller's and arrives with ANY content (test_context.c passes uninitialised stack memory) */
   CTX.is_thread = (int)verif_u64(); CTX.ctx_stack = (void*)verif_u64(); CTX.ctx_stack_size = (size_t)verif_u64(); CTX.ctx_stack_pointer = (void**)verif_u64();
@@ -90,6 +87,20 @@ void h_init(void) {
 #endif
   }
   VCANARY("context_init can return");
+}
+void h_init(void) {
+  void* param = (void*)verif_u64();
+#ifdef FIBER_STACK_MMAP
+  /* one concrete request per group (-DVSZ: 1024 -> 5 pages of 206 usable bytes, 1039 -> 6 pages): the byte-level stack object of the mmap variant is
+   * expensive for the solver (7 GB with a symbolic request); the arithmetic for all sizes is lemma_frame_arith / lemma_page_rounding */
+  vpage = VPAGE;
+  init_body(VSZ, param);
+#else
+  size_t sz = (size_t)verif_u64();
+  VASSUME(sz >= 1024 && sz <= 1024 + 15);   /* every residue mod 16 at the documented minimum FIBER_MIN_STACK_SIZE (the frame sits at the TOP of the
+                                               stack, so larger sizes only move it: lemma_frame_arith covers all sizes and base addresses) */
+  init_body(sz, param);
+#endif
 }
 void h_thread_context(void) {
   mallocs = frees = mmaps = munmaps = 0; free_bad = 0;
